@@ -55,8 +55,23 @@ pub fn build(cfg: &Value) -> MemoryImage {
     if cfg.get("mirror").and_then(|b| b.as_bool()).unwrap_or(false) {
         m.set_internal_ram_mirror(true);
     }
+    // earlier slot operations of the same image ("absent"/"present"/size): the final state is given by "card" below, the
+    // history must not leave anything behind
+    if let Some(hist) = cfg.get("card_history").and_then(|h| h.as_array()) {
+        for h in hist {
+            match h {
+                Value::String(s) if s == "absent" => m.set_memory_card_slot_present(false),
+                Value::String(s) if s == "present" => m.set_memory_card_slot_present(true),
+                Value::Number(n) => {
+                    let _ = m.load_memory_card(&seeded(3, n.as_u64().unwrap_or(0) as usize));
+                }
+                _ => {}
+            }
+        }
+    }
     match cfg.get("card") {
         Some(Value::String(s)) if s == "absent" => m.set_memory_card_slot_present(false),
+        Some(Value::String(s)) if s == "present" => m.set_memory_card_slot_present(true),
         Some(Value::Number(n)) => {
             let size = n.as_u64().unwrap_or(0) as usize;
             let seed = cfg.get("card_seed").and_then(|x| x.as_u64()).unwrap_or(7) as u32;
